@@ -267,14 +267,16 @@ impl Drop for Tr {
 #[derive(Debug, Clone, Copy, PartialEq)]
 pub struct Tzc;
 
-/// zero-sized clone type, counted only
+/// zero-sized clone type, counted only.  Zero-sized but aligned to 4 bytes: as a field it takes no
+/// room but still moves what follows it to the next multiple of four (`()` is the zero-sized type
+/// without an alignment of its own in the generated programs).
 #[derive(Debug)]
-pub struct Tz;
+pub struct Tz([u32; 0]);
 
 impl Tz {
     pub fn new() -> Tz {
         uncounted(|| track(|h| h.tz_live += 1));
-        Tz
+        Tz([])
     }
 }
 impl Clone for Tz {
